@@ -353,6 +353,11 @@ def _top_map(doc, g, values, points, rng, res, rts, viol, kw0) -> None:
                 continue
             res["stats"]["top_map_failures"] = res["stats"].get("top_map_failures", 0) + 1
             if eh == "raise":
+                if doc.get("explicit_select") and out["status"] == "raised" and out["error"] and out["error"][0] == "ValueError" and "Requested outputs not found" in str(out["error"][1]):
+                    # an item that does not reach the failure point (other branch) completes WITHOUT the selected outputs and is
+                    # rejected by on_missing="error" before the failing item is reached: legitimate, not a masked failure
+                    res["stats"]["top_map_item_rejected_by_on_missing"] = res["stats"].get("top_map_item_rejected_by_on_missing", 0) + 1
+                    continue
                 if out["status"] != "raised" or not _identity(out, rt, [0]):
                     viol.append((f"{label}:map_did_not_raise_the_injected_object", {"status": out["status"], "error": out["error"]}))
             else:
